@@ -6,6 +6,7 @@ package schedulerplugin
 // (Filter, Bind, unbind via the event channel, resyncPod, Release, syncPodIP, ensureIPAMConf).
 
 import (
+	"sync"
 	"context"
 	"fmt"
 	"net"
@@ -101,6 +102,7 @@ type vpBindRec struct {
 }
 
 type vpWorld struct {
+	mu     sync.Mutex // guards the fakes' own maps inside the fakes' methods only (never held across a window)
 	topo   int
 	store  *floatingip.VfStore
 	plugin *FloatingIPPlugin
@@ -186,6 +188,8 @@ func (w *vpWorld) finishInterference() {
 
 func (w *vpWorld) tick(kind, name string) error {
 	w.windowPoint()
+	w.mu.Lock()
+	defer w.mu.Unlock()
 	w.calls++
 	if w.faultAt == w.calls {
 		w.faulted = true
@@ -224,6 +228,8 @@ func (p *vpPods) Get(ctx context.Context, name string, opts metav1.GetOptions) (
 	if err := p.w.tick("pods.get", name); err != nil {
 		return nil, err
 	}
+	p.w.mu.Lock()
+	defer p.w.mu.Unlock()
 	pod, ok := p.w.pods[name]
 	if !ok || p.ns != vpNS {
 		return nil, apierrors.NewNotFound(vpPodGR, name)
@@ -235,6 +241,8 @@ func (p *vpPods) Bind(ctx context.Context, b *corev1.Binding, opts metav1.Create
 	if err := p.w.tick("pods.bind", b.Name); err != nil {
 		return err
 	}
+	p.w.mu.Lock()
+	defer p.w.mu.Unlock()
 	pod, ok := p.w.pods[b.Name]
 	if !ok || p.ns != vpNS {
 		return apierrors.NewNotFound(vpPodGR, b.Name)
@@ -272,6 +280,8 @@ func (n *vpNodes) Get(ctx context.Context, name string, opts metav1.GetOptions) 
 	if err := n.w.tick("nodes.get", name); err != nil {
 		return nil, err
 	}
+	n.w.mu.Lock()
+	defer n.w.mu.Unlock()
 	node, ok := n.w.nodes[name]
 	if !ok {
 		return nil, apierrors.NewNotFound(schema.GroupResource{Resource: "nodes"}, name)
@@ -301,6 +311,8 @@ type vpPodLister struct {
 
 func (l *vpPodLister) Pods(ns string) corev1lister.PodNamespaceLister { return &vpPodNSLister{w: l.w, ns: ns} }
 func (l *vpPodLister) List(sel labels.Selector) ([]*corev1.Pod, error) {
+	l.w.mu.Lock()
+	defer l.w.mu.Unlock()
 	var names []string
 	for n := range l.w.lPods {
 		names = append(names, n)
@@ -320,6 +332,8 @@ type vpPodNSLister struct {
 }
 
 func (l *vpPodNSLister) Get(name string) (*corev1.Pod, error) {
+	l.w.mu.Lock()
+	defer l.w.mu.Unlock()
 	pod, ok := l.w.lPods[name]
 	if !ok || l.ns != vpNS {
 		return nil, apierrors.NewNotFound(vpPodGR, name)
@@ -343,6 +357,8 @@ type vpDpNSLister struct {
 }
 
 func (l *vpDpNSLister) Get(name string) (*appsv1.Deployment, error) {
+	l.w.mu.Lock()
+	defer l.w.mu.Unlock()
 	d, ok := l.w.lDeployments[name]
 	if !ok || l.ns != vpNS {
 		return nil, apierrors.NewNotFound(schema.GroupResource{Group: "apps", Resource: "deployments"}, name)
@@ -366,6 +382,8 @@ type vpStsNSLister struct {
 }
 
 func (l *vpStsNSLister) Get(name string) (*appsv1.StatefulSet, error) {
+	l.w.mu.Lock()
+	defer l.w.mu.Unlock()
 	s, ok := l.w.lStatefulset[name]
 	if !ok || l.ns != vpNS {
 		return nil, apierrors.NewNotFound(schema.GroupResource{Group: "apps", Resource: "statefulsets"}, name)
@@ -386,6 +404,8 @@ type vpPoolNSLister struct {
 }
 
 func (l *vpPoolNSLister) Get(name string) (*v1alpha1.Pool, error) {
+	l.w.mu.Lock()
+	defer l.w.mu.Unlock()
 	p, ok := l.w.lPools[name]
 	if !ok {
 		return nil, apierrors.NewNotFound(schema.GroupResource{Group: "galaxy.k8s.io", Resource: "pools"}, name)
@@ -407,6 +427,8 @@ func (c *vpCrdKey) GetGroupVersionResource(appPrefix string) *schema.GroupVersio
 type vpCrdCache struct{ w *vpWorld }
 
 func (c *vpCrdCache) GetReplicas(gvr schema.GroupVersionResource, namespace, name string) (int, error) {
+	c.w.mu.Lock()
+	defer c.w.mu.Unlock()
 	r, ok := c.w.tapps[name]
 	if !ok || namespace != vpNS {
 		return 0, apierrors.NewNotFound(schema.GroupResource{Group: gvr.Group, Resource: gvr.Resource}, name)
